@@ -47,7 +47,8 @@ def pclass(p):
                       ('does not exist', 'listed-missing'),
                       ('has dimensions', 'listed-dims'),
                       ('but dimension', 'count-attr'), ('VGLVLS', 'vglvls'),
-                      ('SDATE/STIME', 'sdate'), ('VAR-LIST', 'varlist')):
+                      ('SDATE/STIME', 'sdate'), ('not YYYYJJJ', 'tflag'),
+                      ('VAR-LIST', 'varlist')):
         if key in p:
             return name
     return 'other'
